@@ -31,7 +31,20 @@ def check_deck(deck, seed, flags=(), lattice=(), n_points=60, want=('C01', 'C08'
                       'flags': list(flags), 'lattice': list(lattice)})
     t4, out, exc = run.convert(text, lattice=lattice, flags=flags, max_inline_score=max_inline_score)
     if exc is not None:
-        fail('C08', 'conversion-raised', f'{type(exc).__name__}: {exc}')
+        # a deck in which no probe point belongs to a cell of non-zero importance has nothing to convert (the
+        # generator produced an ill-posed deck, e.g. a first cell covering all space): not a statement about the code
+        pts0 = points if points is not None else decks.probe_points(seed, n_points)
+        alive = False
+        for pt in pts0:
+            try:
+                loc = deck.locate(pt)
+            except Exception:
+                loc = None
+            if isinstance(loc, list) and loc and loc[0] in deck.cells and deck.cells[loc[0]].imp != 0:
+                alive = True
+                break
+        if alive:
+            fail('C08', 'conversion-raised', f'{type(exc).__name__}: {exc}')
         return fails, stats, None
     try:
         f = t4file.T4File(t4)
@@ -39,7 +52,14 @@ def check_deck(deck, seed, flags=(), lattice=(), n_points=60, want=('C01', 'C08'
         fail('C08', 'unreadable-file', f'{type(e).__name__}: {e}')
         return fails, stats, None
     stats['volumes'] = len(f.volumes)
+    def bc_fail(label, detail):
+        if 'C16' in want:
+            fail('C16', label, detail)
+        if label != 'entry-on-a-surface-that-is-not-flagged' and label != 'not-exactly-one-entry-of-the-right-kind':
+            fail('C08', 'boundary:' + label, detail)
     for e in f.structural_errors():
+        if e.startswith('boundary condition on undefined surface'):
+            continue        # classified by cause below (see bc_fail)
         fail('C08', 'structure', e)
     # C12: exactly the zero-importance level-0 cells are left out and listed
     zero = sorted(c.id for c in deck.cells.values() if c.universe == 0 and c.imp == 0)
@@ -51,6 +71,43 @@ def check_deck(deck, seed, flags=(), lattice=(), n_points=60, want=('C01', 'C08'
         if c.universe == 0 and c.fill is None and c.fill_array is None:
             if c.imp == 0 and c.id in f.volumes and 'C12' in want:
                 fail('C12', 'zero-importance-cell-emitted', f'cell {c.id}')
+    if True:
+        flagged = {s.id: s for s in deck.surfs.values() if s.bc}
+        used = set()
+        for c in deck.cells.values():
+            _collect_surfaces(c.expr, used)
+        # a flagged surface "bounds a converted cell" when some cell with non-zero importance references it
+        bounding = set()
+        for c in deck.cells.values():
+            if c.imp != 0 and c.universe == 0:
+                u = set()
+                _collect_surfaces(c.expr, u, deck, set())
+                bounding |= u
+        entries = {}
+        for kind, sid in f.boundary:
+            entries.setdefault(sid, []).append(kind)
+        for sid, s in flagged.items():
+            want_kind = {'*': 'REFLECTION', '+': 'COSINUS'}[s.bc]
+            kinds = entries.get(sid, [])
+            if kinds != [want_kind]:
+                bc_fail('not-exactly-one-entry-of-the-right-kind', f'surface {s.bc}{sid}: entries {kinds}')
+                continue
+            if sid in f.surfaces and _same_locus(f, sid, deck, sid):
+                continue
+            merged = [k for k in f.surfaces if k != sid and _same_locus(f, k, deck, sid)]
+            if sid not in bounding:
+                bc_fail('entry-on-a-flagged-surface-bounding-no-converted-cell',
+                     f'surface {s.bc}{sid} is used by no cell of non-zero importance; the entry designates {sid}, '
+                     'which is not a SURF of the file')
+            elif merged:
+                bc_fail('entry-on-a-surface-number-removed-by-deduplication',
+                     f'surface {s.bc}{sid} was merged into {merged[:2]}; the entry still designates {sid}')
+            else:
+                bc_fail('entry-designates-a-surface-that-is-not-written',
+                     f'surface {s.bc}{sid}: written surfaces {sorted(f.surfaces)[:12]}')
+        for sid, kinds in entries.items():
+            if sid not in flagged:
+                bc_fail('entry-on-a-surface-that-is-not-flagged', f'entry {kinds} on {sid}')
     gc = {}
     for name, ids in f.geomcomp:
         for i in ids:
@@ -120,3 +177,34 @@ def _same_number(a, b):
         return abs(float(a.lower().replace('d', 'e')) - float(str(b).lower().replace('d', 'e'))) < 1e-12
     except ValueError:
         return False
+
+
+def _collect_surfaces(e, out, deck=None, seen=None):
+    if e is None:
+        return
+    if e[0] in ('s', 'f'):
+        out.add(abs(e[1]))
+    elif e[0] == '#':
+        if deck is not None and e[1] not in seen:
+            seen.add(e[1])
+            _collect_surfaces(deck.cells[e[1]].expr, out, deck, seen)
+    else:
+        for a in e[1:]:
+            _collect_surfaces(a, out, deck, seen)
+
+
+def _same_locus(f, t4_id, deck, mcnp_id, n=40):
+    """Does T4 surface t4_id vanish / change sign exactly where MCNP surface mcnp_id does (sampled)?"""
+    import random
+    rng = random.Random(t4_id * 7919 + mcnp_id)
+    agree = 0
+    for _ in range(n):
+        pt = (rng.uniform(-3, 3), rng.uniform(-3, 3), rng.uniform(-3, 3))
+        neg = deck.sense_neg(mcnp_id, pt)
+        if neg is None:
+            continue
+        v = f.surf_value(t4_id, pt)
+        if abs(v) < 1e-9:
+            continue
+        agree += 1 if (v < 0) == neg else -1
+    return abs(agree) >= n * 0.9
